@@ -7,6 +7,8 @@ import Marwood.Lemmas.PreludeLength
 import Marwood.Lemmas.TotalLength
 import Marwood.Lemmas.EqualAgree
 import Marwood.Lemmas.EqualViewMain
+import Marwood.Lemmas.StoreMapPlan
+import Marwood.Lemmas.TotalPrelude
 /-!
 # C14 — list and vector procedures match their specification and preserve identity
 
@@ -1169,5 +1171,255 @@ example : equal 22 exTreeStore (.ptr 8) (.ptr 18) = .ok false := by
   simp [exTree, exTree', Tree.equiv, Tree.equivAll, Atom.eqv]
 example := equalB_iff_same_view (fuel := 22) ex_view2 ex_view1 (by rw [exTree_size]; exact Nat.le_refl _)
 example := view_unique ex_view1 ex_view1
+
+/-! ## `map` and `for-each` (Scheme definitions of `prelude.scm`, parametric in the procedure argument)
+
+The procedure argument is a store transformer `g : Callee`, as in the model (`Store.map g`,
+`Store.forEach g`).  Vocabulary (`Lemmas/StoreMapDefs.lean`):
+
+* `SpineOff M s l as c` — the stack value `l` denotes a list with element references `as` and final
+  non-pair cell `c` (`Spine s l as c`) none of whose spine cells is at an address in `M`;
+  `AllSpinesOff M s lists views` — position by position; `views.map (·, .nil)`: proper lists.
+* `Keeps M s s'` — of the heap cells that existed in `s` only those in `M` differ in `s'`.
+* `MapCallee g M I tuples` — the law of the callee on this run: `I` is a store invariant of the
+  caller's choice that survives allocation (`grow`); in a store satisfying `I` the callee returns on
+  each of the argument tuples it is given, writes (of what existed) only inside `M`, and
+  re-establishes `I` (`call`).  `M` lies below the heap size at the call of `map` and off the spines
+  of the input lists (that is `SpineOff M`): the callee may `set-car!` an *element*, fill a vector,
+  allocate — it may not redirect the lists being traversed, nor pairs it cannot know (the lists
+  `map` builds for itself are allocated later, hence outside `M`).
+* `columnsN m views` — the `m` argument tuples: the j-th holds the j-th element reference of every
+  list, in the order of the lists (`map_tuples_get`).
+* `MapRun g s tuples s' ys` — the calls, as a fold over j: `g` is applied to `tuples[0]`,
+  `tuples[1]`, … in this order, the store it returns is the store the next call starts from, up to
+  pairs `map` allocates in between (`Extends`), and the j-th call returns `ys[j]`.
+  The arguments are `argsOf tuples`: the element references themselves (`VCell.ptr a` for the very
+  address `a` stored in the list's pair — pointers, not copies), clause (d).
+-/
+
+/-- (a)(c)(d) `(map g l₁ … lₖ)`, `k ≥ 1`, proper lists with element references `views`, `m` the
+    length of the shortest: for `fuel ≥ m + k + 2` the answer is `ok (s', r)` where the `m` calls
+    happened in list order on the tuples of j-th element references (`MapRun`, `ys.length = m`:
+    R7RS — the shortest list ends the iteration), `r` is a proper list all of whose pairs (and its
+    final `()` cell) were allocated during this call (`SpineOff (· < |s.cells|)`: FRESH, shares no
+    pair with any input) whose j-th element reference denotes the value the j-th call returned
+    (`DenotesAll s' rs ys`), and the input lists are the same lists in `s'` (frame), of the cells
+    that existed only those in `M` differ, and the invariant holds again. -/
+theorem map_spec {g : Callee} {M : Nat → Prop} {I : Store → Prop} {s : Store} {l : VCell}
+    {rest : List VCell} {views : List (List Nat)} {m fuel : Nat}
+    (hl : AllSpinesOff M s (l :: rest) (views.map fun as => (as, VCell.nil)))
+    (hM : ∀ i, M i → i < s.cells.length)
+    (hmin : ∀ as ∈ views, m ≤ as.length) (hex : ∃ as ∈ views, as.length = m)
+    (hI : I s) (hg : MapCallee g M I (argsOf (columnsN m views)))
+    (hfuel : m + (l :: rest).length + 2 ≤ fuel) :
+    ∃ s' r ys rs, map g fuel s (l :: rest) = .ok (s', r) ∧
+      MapRun g s (argsOf (columnsN m views)) s' ys ∧ ys.length = m ∧
+      SpineOff (· < s.cells.length) s' r rs .nil ∧ IsList s' r rs ∧ DenotesAll s' rs ys ∧
+      AllSpinesOff M s' (l :: rest) (views.map fun as => (as, VCell.nil)) ∧ Keeps M s s' ∧ I s' := by
+  have hp : Plan (views.map fun as => (as, VCell.nil)) (columnsN m views) true := by
+    have := plan_ok (m := m) (views := views.map fun as => (as, VCell.nil))
+      (fun v hv => by
+        obtain ⟨as, ha, rfl⟩ := List.mem_map.mp hv
+        exact hmin as ha)
+      (by
+        obtain ⟨as, ha, hlen⟩ := hex
+        exact ⟨(as, .nil), List.mem_map.mpr ⟨as, ha, rfl⟩, hlen, rfl⟩)
+    rwa [firsts_proper] at this
+  have hlen : (columnsN m views).length = m := columnsN_length hmin
+  obtain ⟨s', r, ys, rs, e, run, fr, hden, hfrm, hk, hI'⟩ :=
+    (map_plan hl hM hI hg hp (by rw [hlen]; exact hfuel)).1 rfl
+  refine ⟨s', r, ys, rs, e, run, ?_, fr, fr.isList, hden, hfrm, hk, hI'⟩
+  rw [run.length]; simp [argsOf, hlen]
+
+/-- (b) `(for-each g l₁ … lₖ)`: the same calls in the same order — first element to last, the order
+    R7RS guarantees for `for-each` —, the unspecified value, the same frame -/
+theorem forEach_spec {g : Callee} {M : Nat → Prop} {I : Store → Prop} {s : Store} {l : VCell}
+    {rest : List VCell} {views : List (List Nat)} {m fuel : Nat}
+    (hl : AllSpinesOff M s (l :: rest) (views.map fun as => (as, VCell.nil)))
+    (hM : ∀ i, M i → i < s.cells.length)
+    (hmin : ∀ as ∈ views, m ≤ as.length) (hex : ∃ as ∈ views, as.length = m)
+    (hI : I s) (hg : MapCallee g M I (argsOf (columnsN m views)))
+    (hfuel : m + (l :: rest).length + 2 ≤ fuel) :
+    ∃ s' ys, forEach g fuel s (l :: rest) = .ok (s', .void) ∧
+      MapRun g s (argsOf (columnsN m views)) s' ys ∧ ys.length = m ∧
+      AllSpinesOff M s' (l :: rest) (views.map fun as => (as, VCell.nil)) ∧ Keeps M s s' ∧ I s' := by
+  have hp : Plan (views.map fun as => (as, VCell.nil)) (columnsN m views) true := by
+    have := plan_ok (m := m) (views := views.map fun as => (as, VCell.nil))
+      (fun v hv => by
+        obtain ⟨as, ha, rfl⟩ := List.mem_map.mp hv
+        exact hmin as ha)
+      (by
+        obtain ⟨as, ha, hlen⟩ := hex
+        exact ⟨(as, .nil), List.mem_map.mpr ⟨as, ha, rfl⟩, hlen, rfl⟩)
+    rwa [firsts_proper] at this
+  have hlen : (columnsN m views).length = m := columnsN_length hmin
+  obtain ⟨s', ys, e, run, hfrm, hk, hI'⟩ :=
+    (forEach_plan hl hM hI hg hp (by rw [hlen]; exact hfuel)).1 rfl
+  refine ⟨s', ys, e, run, ?_, hfrm, hk, hI'⟩
+  rw [run.length]; simp [argsOf, hlen]
+
+/-- the tuples: `m` of them, the j-th is the list of the j-th element references -/
+theorem map_tuples_length {m : Nat} {views : List (List Nat)} (hmin : ∀ as ∈ views, m ≤ as.length) :
+    (columnsN m views).length = m := columnsN_length hmin
+
+theorem map_tuples_get {m j : Nat} {views : List (List Nat)} (hmin : ∀ as ∈ views, m ≤ as.length)
+    (hj : j < m) : (columnsN m views)[j]? = some (views.map fun as => as[j]?.getD 0) :=
+  columnsN_get hmin hj
+
+/-- (d) identity: the j-th call receives, for every list, the reference `ptr a` where `a` is the
+    address stored in the car of that list's j-th pair — the object itself, never a copy; so a
+    mutation the callee performs through its argument is visible through the list, and `eq?` on
+    the argument and the element is true -/
+theorem map_args_identity {m j : Nat} {views : List (List Nat)}
+    (hmin : ∀ as ∈ views, m ≤ as.length) (hj : j < m) :
+    (argsOf (columnsN m views))[j]? = some (views.map fun as => VCell.ptr (as[j]?.getD 0)) := by
+  simp only [argsOf, List.getElem?_map, columnsN_get hmin hj, Option.map_some, List.map_map]
+  rfl
+
+/-- one list: `g` is applied to each element reference in turn -/
+theorem map_tuples_single (as : List Nat) : columnsN as.length [as] = as.map fun a => [a] :=
+  columnsN_single as
+
+/-- (a)–(d) for a callee that only allocates (`car`, `cdr`, `cons`, `list`, `vector`, … :
+    `g t args = ok (u, y) → Extends t u`), in the vocabulary of the other list theorems: proper lists
+    `IsList`, frame `Extends s s'` — nothing that existed is changed at all. -/
+theorem map_spec_pure {g : Callee} {I : Store → Prop} {s : Store} {l : VCell} {rest : List VCell}
+    {views : List (List Nat)} {m fuel : Nat}
+    (hl : AllLists s (l :: rest) views) (hv : ∀ x ∈ l :: rest, x.isValue = true)
+    (hmin : ∀ as ∈ views, m ≤ as.length) (hex : ∃ as ∈ views, as.length = m)
+    (hpure : ∀ t args u y, g t args = .ok (u, y) → Extends t u)
+    (hI : I s) (hg : MapCallee g (fun _ => False) I (argsOf (columnsN m views)))
+    (hfuel : m + (l :: rest).length + 2 ≤ fuel) :
+    ∃ s' r ys rs, map g fuel s (l :: rest) = .ok (s', r) ∧
+      MapRun g s (argsOf (columnsN m views)) s' ys ∧ ys.length = m ∧
+      SpineOff (· < s.cells.length) s' r rs .nil ∧ IsList s' r rs ∧ DenotesAll s' rs ys ∧
+      AllLists s' (l :: rest) views ∧ Extends s s' ∧ I s' := by
+  obtain ⟨s', r, ys, rs, e, run, hlen, fr, hil, hden, _, _, hI'⟩ :=
+    map_spec (hl.allSpinesOff hv) (fun _ h => h.elim) hmin hex hI hg hfuel
+  have hx := run.extends hpure
+  exact ⟨s', r, ys, rs, e, run, hlen, fr, hil, hden, hl.mono hx, hx, hI'⟩
+
+theorem forEach_spec_pure {g : Callee} {I : Store → Prop} {s : Store} {l : VCell}
+    {rest : List VCell} {views : List (List Nat)} {m fuel : Nat}
+    (hl : AllLists s (l :: rest) views) (hv : ∀ x ∈ l :: rest, x.isValue = true)
+    (hmin : ∀ as ∈ views, m ≤ as.length) (hex : ∃ as ∈ views, as.length = m)
+    (hpure : ∀ t args u y, g t args = .ok (u, y) → Extends t u)
+    (hI : I s) (hg : MapCallee g (fun _ => False) I (argsOf (columnsN m views)))
+    (hfuel : m + (l :: rest).length + 2 ≤ fuel) :
+    ∃ s' ys, forEach g fuel s (l :: rest) = .ok (s', .void) ∧
+      MapRun g s (argsOf (columnsN m views)) s' ys ∧ ys.length = m ∧
+      AllLists s' (l :: rest) views ∧ Extends s s' ∧ I s' := by
+  obtain ⟨s', ys, e, run, hlen, _, _, hI'⟩ :=
+    forEach_spec (hl.allSpinesOff hv) (fun _ h => h.elim) hmin hex hI hg hfuel
+  have hx := run.extends hpure
+  exact ⟨s', ys, e, run, hlen, hl.mono hx, hx, hI'⟩
+
+/-- (c) an improper input: when every shortest list (length `m`) ends in a non-pair other than
+    `()` — the improper tail is reached before any list ends — `map` and `for-each` answer the
+    `expected pair` error of `car` (not a value, not a panic), whatever the law-abiding callee did on
+    the `m` tuples before the tail.  (When some list of length `m` is proper, `any? null?` stops the
+    walk first and the improper tail is never looked at: that case is `map_plan` with `plan_ok`; the
+    Rust VM agrees: `(map cons '((1 . 2) . 5) '(7))` is `(((1 . 2) . 7))`, with `'(7 8)` an error.) -/
+theorem map_improper_err {g : Callee} {M : Nat → Prop} {I : Store → Prop} {s : Store} {l : VCell}
+    {rest : List VCell} {views : List (List Nat × VCell)} {m fuel : Nat}
+    (hl : AllSpinesOff M s (l :: rest) views) (hM : ∀ i, M i → i < s.cells.length)
+    (hall : ∀ v ∈ views, m < v.1.length ∨ (v.1.length = m ∧ v.2.isNil = false))
+    (hex : ∃ v ∈ views, v.1.length = m)
+    (hI : I s) (hg : MapCallee g M I (argsOf (columnsN m (firsts views))))
+    (hfuel : m + (l :: rest).length + 2 ≤ fuel) :
+    map g fuel s (l :: rest) = .err .pair ∧ forEach g fuel s (l :: rest) = .err .pair := by
+  have hp := plan_err hall hex
+  have hlen : (columnsN m (firsts views)).length = m := columnsN_length (by
+    intro as ha
+    obtain ⟨v, hv, rfl⟩ := List.mem_map.mp ha
+    rcases hall v hv with h | ⟨h, _⟩ <;> omega)
+  exact ⟨(map_plan hl hM hI hg hp (by rw [hlen]; exact hfuel)).2 rfl,
+    (forEach_plan hl hM hI hg hp (by rw [hlen]; exact hfuel)).2 rfl⟩
+
+/-- (b)(c) the order of the calls is observable: if the callee obeys its law on the first tuples
+    `pre` and fails on the next one (an error, a panic, or no return — in every store satisfying the
+    invariant), that failure is the answer of `map` and of `for-each`: the calls before it happened
+    first, no later element is touched, and an improper tail further on is not reported instead. -/
+theorem map_callee_failure {g : Callee} {M : Nat → Prop} {I : Store → Prop} {s : Store} {l : VCell}
+    {rest : List VCell} {views : List (List Nat × VCell)} {tuples : List (List Nat)} {b : Bool}
+    {fuel : Nat} {pre : List (List Nat)} {t : List Nat} {post : List (List Nat)}
+    (hl : AllSpinesOff M s (l :: rest) views) (hM : ∀ i, M i → i < s.cells.length)
+    (hI : I s) (hp : Plan views tuples b) (hs : tuples = pre ++ t :: post)
+    (hg : MapCallee g M I (argsOf pre))
+    (hfail : ∀ st, I st → ∀ x, g st (t.map VCell.ptr) ≠ .ok x)
+    (hfuel : tuples.length + (l :: rest).length + 2 ≤ fuel) :
+    ∃ st, I st ∧ SameFailure (g st (t.map VCell.ptr)) (map g fuel s (l :: rest)) ∧
+      SameFailure (g st (t.map VCell.ptr)) (forEach g fuel s (l :: rest)) :=
+  map_callee_fails hl hM hI hp hs hg hfail hfuel
+
+/-- well-formedness: a callee that obeys `CalleeLaw` (C06: no panic, hands back a well-formed store
+    that only grew and a valid value) makes `map` hand back a well-formed store and a valid result -/
+theorem map_spec_wf {g : Callee} (hg : CalleeLaw g) {fuel : Nat} {s : Store} (hs : s.WF)
+    {lists : List VCell} (ha : ∀ v ∈ lists, VCell.Valid s v) {s' : Store} {r : VCell}
+    (h : map g fuel s lists = .ok (s', r)) : s'.WF ∧ VCell.Valid s' r :=
+  let p := (map_sat hg fuel hs ha).2 _ h
+  ⟨p.1, p.2.2⟩
+
+/-! ### the hypotheses are satisfiable: `car`, `cons`, and an improper list on `exStore`
+
+`ptr 9` is `((1 . 2))`, `ptr 4` is `(1 2)`, `ptr 3` is `(2)`, `ptr 7` is `(1 . 7)`. -/
+
+theorem ex_alist : IsList exStore (.ptr 9) [8] := .cons rfl (.nil rfl)
+
+/-- `(map car '((1 . 2)))` -/
+example := map_spec_pure (g := car) (I := Extends exStore) (s := exStore) (m := 1) (fuel := 4)
+  (.cons ex_alist .nil) (by simp [VCell.isValue]) (by simp) ⟨[8], by simp, rfl⟩ car_extends
+  (Extends.refl _)
+  (mapCallee_car (s0 := exStore) (by
+    intro args h
+    simp [argsOf, columnsN] at h
+    exact ⟨8, 0, 1, h, rfl⟩))
+  (by decide)
+
+/-- `(map cons '(1 2) '(2))` and `(for-each cons '(1 2) '(2))`: one call, on the first elements -/
+example := map_spec_pure (g := cons) (I := fun _ => True) (s := exStore) (m := 1) (fuel := 5)
+  (.cons ex_list (.cons (.cons rfl (.nil rfl) : IsList exStore (.ptr 3) [1]) .nil))
+  (by simp [VCell.isValue]) (by simp) ⟨[1], by simp, rfl⟩ cons_extends trivial
+  (mapCallee_cons (by intro args h; simp [argsOf, columnsN] at h; subst h; rfl)) (by decide)
+example := forEach_spec_pure (g := cons) (I := fun _ => True) (s := exStore) (m := 1) (fuel := 5)
+  (.cons ex_list (.cons (.cons rfl (.nil rfl) : IsList exStore (.ptr 3) [1]) .nil))
+  (by simp [VCell.isValue]) (by simp) ⟨[1], by simp, rfl⟩ cons_extends trivial
+  (mapCallee_cons (by intro args h; simp [argsOf, columnsN] at h; subst h; rfl)) (by decide)
+
+/-- `(map cons '(1 . 7) '(1 2))`: one call, then the improper tail -/
+example := map_improper_err (g := cons) (M := fun _ => False) (I := fun _ => True) (s := exStore)
+  (m := 1) (fuel := 5) (views := [([0], .num 7), ([0, 1], .nil)])
+  (.cons (ex_improper.spineOff rfl) (.cons (ex_spine.spineOff rfl) .nil)) (fun _ h => h.elim)
+  (by simp [VCell.isNil]) ⟨([0], .num 7), by simp, rfl⟩ trivial
+  (mapCallee_cons (by intro args h; simp [argsOf, columnsN, firsts] at h; subst h; rfl))
+  (by decide)
+
+/-- a callee that writes: `(lambda (p) (set-car! p 9))`; it may write the element `ptr 8` (the pair
+    `(1 . 2)`), which is not on the spine of `((1 . 2))` -/
+def exSetCar9 : Callee := fun s args => setCar s (args ++ [.num 9])
+
+theorem onlyCell_keeps {s s' : Store} {q : Nat} (h : OnlyCell s s' q) : Keeps (· = q) s s' :=
+  ⟨h.len, fun i hi hne => h.cells i hi hne⟩
+
+theorem mapCallee_exSetCar9 :
+    MapCallee exSetCar9 (· = 8) (fun t => ∃ a d, t.cells[8]? = some (.pair a d)) [[.ptr 8]] := by
+  refine ⟨fun t t' ⟨a, d, h⟩ he => ⟨a, d, he.cell h⟩, fun t args ⟨a, d, h⟩ hm => ?_⟩
+  simp only [List.mem_singleton] at hm
+  subst hm
+  obtain ⟨s', w, h1, h2, _, h4⟩ := setCar_ok (x := .num 9) rfl h
+  exact ⟨s', .void, h1, onlyCell_keeps h4, w, d, h2⟩
+
+/-- `(for-each (lambda (p) (set-car! p 9)) '((1 . 2)))`: the list is still `((… . 2))` with the same
+    element, only cell 8 may differ -/
+example := forEach_spec (g := exSetCar9) (M := (· = 8))
+  (I := fun t => ∃ a d, t.cells[8]? = some (.pair a d)) (s := exStore) (l := .ptr 9) (rest := [])
+  (views := [[8]]) (m := 1) (fuel := 4)
+  (.cons (.cons (by decide) rfl (.done (by decide) rfl rfl)) .nil)
+  (by intro i h; subst h; decide) (by simp) ⟨[8], by simp, rfl⟩ ⟨0, 1, rfl⟩
+  mapCallee_exSetCar9 (by decide)
+
+/-- the model itself on these inputs (kernel evaluation of tiny runs) -/
+example : map cons 5 exStore [.ptr 7, .ptr 4] = .err .pair := rfl
+example : ∃ s', forEach car 4 exStore [.ptr 9] = .ok (s', .void) := ⟨_, rfl⟩
 
 end Marwood.Proofs.C14
